@@ -148,7 +148,50 @@ def case_spectrum(case):
     return r.done(outcome=[cls, d, str(opts)], sub={"negative_lobe_found": int(smin < -1e-4)})
 
 
-GROUPS = {"matrix": case_matrix, "spectrum": case_spectrum}
+def case_accept(case):
+    """premise of the property: a model that is accepted without the invalid-dimension warning lives in
+    a dimension where the class is valid (the effective dimension: 3 / 4 for lat-lon models)"""
+    r = R()
+    cls, route = case["cls"], case["route"]
+    C = getattr(gs, cls)
+    opts = cf.opt_grid(cls, 4, "quick")[0] if cf.opt_grid(cls, 4, "quick") else {}
+    kw = dict(case["kw"])
+    extra = {"cls": cls, "route": route, **{k: v for k, v in kw.items()}}
+    with warnings.catch_warnings(record=True) as rec:
+        warnings.simplefilter("always")
+        try:
+            if route == "init":
+                m = C(len_scale=1.0, **kw, **opts)
+            else:  # dimension set on an existing object
+                d = kw.pop("dim")
+                m = C(dim=1, len_scale=1.0, **kw, **opts)
+                rec.clear()
+                m.dim = d
+        except ValueError as e:
+            return r.done(outcome=["refused", cls, str(case["kw"])], skip="combination refused with ValueError: " + str(e)[:60])
+    warned = any("not appropriate" in str(w.message) for w in rec)
+    eff = int(m.dim)
+    valid = eff in cf.valid_dims(cls, 4)
+    r.true("accepted without invalid-dimension warning => class is valid in the effective dimension (documented table)", warned or valid, info={"warned": warned, "effective_dim": eff}, **extra)
+    r.true("warning issued <=> class documented as invalid in the effective dimension", warned == (not valid), info={"warned": warned, "effective_dim": eff}, **extra)
+    if not warned:
+        # independent confirmation on point sets of the effective geometry
+        for ls in (0.6, 1.0, 2.0):
+            m.len_scale = ls
+            if m.latlon and not m.temporal:
+                k = np.arange(120)
+                pos = np.array([np.rad2deg(np.arcsin(1 - 2 * (k + 0.5) / 120)), np.rad2deg((k * math.pi * (3 - math.sqrt(5))) % (2 * math.pi)) - 180.0])
+                Cm = cov_matrix(m, pos, "latlon")
+            else:
+                pos = lattice(eff, {1: 12, 2: 6, 3: 4, 4: 3}[eff], 0.5 * ls)
+                dist = np.linalg.norm(pos[:, :, None] - pos[:, None, :], axis=0)
+                Cm = np.asarray(m.covariance(dist * (m.geo_scale if m.latlon else 1.0)))
+            ev = np.linalg.eigvalsh((Cm + Cm.T) / 2)
+            r.true("accepted model: covariance matrix in the effective geometry has no negative eigenvalue", ev[0] >= -1e-10 * np.trace(Cm), info=float(ev[0]), len_scale=ls, **extra)
+    return r.done(outcome=[cls, eff, warned])
+
+
+GROUPS = {"matrix": case_matrix, "spectrum": case_spectrum, "accept": case_accept}
 
 
 def run(chk):
@@ -167,7 +210,7 @@ def run(chk):
                     continue
                 if geo == "aniso" and d == 1:
                     continue
-                og_ = opt_grid(cls, d, tier)
+                og_ = opt_grid(cls, d, tier) + (cf.near_integer_order_grid(cls, tier) if geo == "iso" or cls == "TPLStable" else [])
                 for opts in og_:
                     mc.append({"cls": cls, "dim": d, "geo": geo, "opts": opts, "tier": tier})
         for d in cf.valid_dims(cls):
@@ -178,6 +221,15 @@ def run(chk):
     ctrl_s = [{"cls": "Linear", "dim": 2, "opts": {}, "control": True}, {"cls": "Circular", "dim": 3, "opts": {}, "control": True}]
     chk.run("matrix", case_matrix, mc, rule="class x valid dim (1-3; 4 as space+time) x optional-argument grid incl. dimension-dependent bounds and len_low > len_scale x {isotropic, anisotropic+rotated, space-time metric, lat-lon} x len_scale {.3, 1, 3} x point sets (lattices at spacings l/5, l/2, l; two-scale clusters; k-subsets of the 3^d lattice; sphere grids with poles / date line, Fibonacci points): smallest eigenvalue, rho(0)=1, |rho|<=1, plane-wave quadratic forms", chunk=2)
     chk.run("spectrum", case_spectrum, sc, rule="class x valid dim x optional-argument grid: sign of the independent d-dimensional radial Fourier transform of the correlation on k l in {0 .. 60}", max_skip_frac=0.5, chunk=2)
+    ac = []
+    for cls in cf.SHIPPED:
+        for latlon, temporal in itertools.product((False, True), repeat=2):
+            for dimkw in [{}] + [{"dim": d} for d in (1, 2, 3, 4)] + [{"spatial_dim": d} for d in (1, 2, 3)]:
+                kw = dict(dimkw, latlon=latlon, temporal=temporal)
+                ac.append({"cls": cls, "route": "init", "kw": kw})
+                if "dim" in dimkw:
+                    ac.append({"cls": cls, "route": "setter", "kw": kw})
+    chk.run("accept", case_accept, ac, rule="class x {latlon} x {temporal} x dimension argument {none, dim=1..4, spatial_dim=1..3} x {constructor, dim setter}: a model accepted without the invalid-dimension warning has an effective dimension (3 / 4 for lat-lon) in which the class is documented valid, confirmed by eigenvalues on a lattice / sphere point set", chunk=8, max_skip_frac=0.5)
     # controls (bounds of SuperSpherical / TPLSimple are violated on purpose through set_arg_bounds)
     cres = []
     for c in ctrl_m:
